@@ -21,8 +21,8 @@ def const_kind(t):
         return None
     if t[0] == "call" and t[1].name in ("false_ptr", "true_ptr", "zero", "one") and len(t[2]) <= 1:
         return {"false_ptr": "false", "true_ptr": "true", "zero": "zero", "one": "one"}[t[1].name]
-    if t[0] == "agg" and t[3] in ("PtrTrue", "PtrFalse"):
-        return "true" if t[3] == "PtrTrue" else "false"
+    if t[0] == "agg" and t[3] in ("PtrTrue", "PtrFalse", "ConstTrue", "ConstFalse"):
+        return "true" if t[3] in ("PtrTrue", "ConstTrue") else "false"
     if t[0] == "field" and t[2] in ("zero", "one"):
         return t[2]
     if t[0] == "call" and t[2]:
